@@ -249,6 +249,15 @@ package httpgen
 //@   ensures fmt_import_used: count("writeOneofDiscriminatorImports") > old(count("writeOneofDiscriminatorImports")) ==> count("P:fmt.") > old(count("P:fmt."))
 //@   loop 2 invariant count("P:fmt.") >= old(count("P:fmt.")) && (_i2 > 0 ==> count("P:fmt.") > old(count("P:fmt.")))
 
+// the unwrap file imports encoding/json (writeUnwrapImports) only together with an emitted method that uses it; its protojson
+// import is referenced by the import block itself (C13)
+//@ func (g *Generator) generateUnwrapFile(file *protogen.File) (err error)
+//@   modifies *
+//@   at-call writeUnwrapImports requires once: count("writeUnwrapImports") == old(count("writeUnwrapImports"))
+//@   ensures imports_used: count("writeUnwrapImports") > old(count("writeUnwrapImports")) ==> count("P:json.") > old(count("P:json.")) && count("P:protojson.") > old(count("P:protojson."))
+//@   loop 1 invariant count("P:json.") >= old(count("P:json.")) && count("P:protojson.") > old(count("P:protojson.")) && (_i1 > 0 ==> count("P:json.") > old(count("P:json.")))
+//@   loop 2 invariant count("P:json.") >= old(count("P:json.")) && count("P:protojson.") > old(count("P:protojson.")) && (_i2 > 0 || len(ctx.RootUnwrapMessages) > 0 ==> count("P:json.") > old(count("P:json.")))
+
 //@ func collectFileUnwrapFields(messages []*protogen.Message, global *GlobalUnwrapInfo) (err error)
 //@   decreases spec.depth(messages)
 //@   modifies global
